@@ -12,4 +12,5 @@ b=s.index('\nWhat the misses taught')
 s=s[:a]+table+s[b:]
 open(p,'w').write(s)
 missed=sum(1 for d in glob.glob('/verif/seeded/*/meta.json') if 'MISSED' in json.load(open(d))['result'] or 'exit 2' in json.load(open(d))['result'])
-print(len(rows),'seeded changes,',missed,'missed or mishandled on first run')
+notdet=sum(1 for d in glob.glob('/verif/seeded/*/meta.json') if 'NOT DETECTED' in json.load(open(d))['result'])
+print(len(rows),'seeded changes,',missed,'missed or mishandled on first run,',notdet,'not detected (by design or as a declared limit)')
